@@ -4,9 +4,72 @@
 -/
 import GoDebian.Model.Version
 import GoDebian.Spec.Version
+import GoDebian.Lemmas.VersionCompare
 
 namespace GoDebian.Props.C01
 open GoDebian GoDebian.Version
+
+/-- Main theorem: the Go loop `verrevcmp` computes the Debian Policy 5.6.12 order, for
+    every pair of NUL-free strings of any length. -/
+theorem C01_verrevcmp (a b : Bytes) (ha : 0 ∉ a) (hb : 0 ∉ b) :
+    sgn (verrevcmp a b) = Spec.Version.ordInt (Spec.Version.cmp a b) :=
+  Lemmas.Version.verrevcmp_spec a b ha hb
+
+example :
+    0 ∉ Bytes.ofString "1.0~rc1+b2" ∧ 0 ∉ Bytes.ofString "1.0~rc1+b10" ∧
+    Spec.Version.cmp (Bytes.ofString "1.0~rc1+b2") (Bytes.ofString "1.0~rc1+b10") = .lt := by
+  decide +kernel
+
+/-- The NUL-freeness hypothesis cannot be dropped: Go's `order` gives byte 0 the weight
+    of the end of the string. -/
+example : sgn (verrevcmp [0] []) ≠ Spec.Version.ordInt (Spec.Version.cmp [0] []) := by
+  decide +kernel
+
+/-- `Compare` on whole versions is the Policy order: epochs numerically, then upstream,
+    then revision. -/
+theorem C01_compare (x y : Version)
+    (hx : 0 ∉ x.upstream ∧ 0 ∉ x.revision) (hy : 0 ∉ y.upstream ∧ 0 ∉ y.revision) :
+    sgn (Version.compare x y) = Spec.Version.ordInt (Spec.Version.compare x y) :=
+  Lemmas.Version.compare_spec x y hx hy
+
+example :
+    let x : Version := ⟨1, Bytes.ofString "2.30", Bytes.ofString "10+deb11u1"⟩
+    let y : Version := ⟨1, Bytes.ofString "2.30", Bytes.ofString "10~bpo1"⟩
+    (0 ∉ x.upstream ∧ 0 ∉ x.revision) ∧ (0 ∉ y.upstream ∧ 0 ∉ y.revision) ∧
+    Spec.Version.compare x y = .gt := by
+  decide +kernel
+
+/-- A missing revision equals revision "0", for every epoch and every upstream part
+    (no NUL-freeness needed). -/
+theorem C01_missing_revision (e : Nat) (u : Bytes) :
+    Version.compare ⟨e, u, []⟩ ⟨e, u, [48]⟩ = 0 :=
+  Lemmas.Version.compare_missing_revision e u
+
+/-- Digit runs compare numerically with no limit on magnitude (specification side). -/
+theorem C01_digits_numeric (da db : Bytes)
+    (ha : ∀ c ∈ da, 48 ≤ c ∧ c ≤ 57) (hb : ∀ c ∈ db, 48 ≤ c ∧ c ≤ 57) :
+    Spec.Version.cmp da db = compare (Spec.Version.natVal da) (Spec.Version.natVal db) :=
+  Lemmas.Version.cmp_digits da db (Lemmas.Version.allDigits_of_bounds ha)
+    (Lemmas.Version.allDigits_of_bounds hb)
+
+/-- Digit runs compare numerically with no limit on magnitude (Go side): the sign of
+    `verrevcmp` on two digit strings is the comparison of their unbounded values. -/
+theorem C01_digits_numeric_model (da db : Bytes)
+    (ha : ∀ c ∈ da, 48 ≤ c ∧ c ≤ 57) (hb : ∀ c ∈ db, 48 ≤ c ∧ c ≤ 57) :
+    sgn (verrevcmp da db) =
+      Spec.Version.ordInt (compare (Spec.Version.natVal da) (Spec.Version.natVal db)) := by
+  rw [← C01_digits_numeric da db ha hb]
+  exact C01_verrevcmp da db
+    (Lemmas.Version.not_mem_zero_of_allDigits (Lemmas.Version.allDigits_of_bounds ha))
+    (Lemmas.Version.not_mem_zero_of_allDigits (Lemmas.Version.allDigits_of_bounds hb))
+
+/-- 2^64 + 1 against 2^64 with leading zeros: beyond any machine integer. -/
+example :
+    (∀ c ∈ Bytes.ofString "18446744073709551617", 48 ≤ c ∧ c ≤ 57) ∧
+    (∀ c ∈ Bytes.ofString "00018446744073709551616", 48 ≤ c ∧ c ≤ 57) ∧
+    verrevcmp (Bytes.ofString "18446744073709551617")
+      (Bytes.ofString "00018446744073709551616") > 0 := by
+  decide +kernel
 
 /-- The property's own examples, evaluated on the model by the kernel. -/
 theorem C01_tilde_plus :
